@@ -414,7 +414,13 @@ class UserActions(object):
         filled_row_ids[i] = row_id = next_row_id
       elif row_id > 1000000:
         raise ValueError("Row ID too high")
+      elif row_id == 0:
+        raise ValueError("Row ID must be positive")
       next_row_id = max(next_row_id, row_id) + 1
+
+    # Each row needs its own ID, or fewer rows get created than the IDs we return.
+    if len(set(filled_row_ids)) != len(filled_row_ids):
+      raise ValueError("Duplicate row IDs")
 
     # Whenever we add new rows, remember the mapping from any negative row_ids to their final
     # values. This allows the negative_row_ids to be used as Reference values in subsequent
